@@ -138,4 +138,63 @@ theorem laguerre_dc (g c : α) (n : Nat) : Spec.laguerreFilter g (List.replicate
   Linear.laguerre_const g c n
 end recursive
 
+/-! ### Alma: the weights depend on positions only -/
+theorem wsum_lin (h : Nat → α) (a b : α) (l1 l2 : List α) (hl : l1.length = l2.length) (k : Nat) :
+    sumL (((lin a b l1 l2).zipIdx k).map fun (x, j) => h j * x) =
+      a * sumL ((l1.zipIdx k).map fun (x, j) => h j * x) + b * sumL ((l2.zipIdx k).map fun (x, j) => h j * x) := by
+  induction l1 generalizing l2 k with
+  | nil => cases l2 with
+    | nil => simp [lin]
+    | cons y s => simp at hl
+  | cons x r ih => cases l2 with
+    | nil => simp at hl
+    | cons y s =>
+      have := ih s (by simpa using hl) (k + 1)
+      simp only [lin, List.zipWith_cons_cons, List.zipIdx_cons, List.map_cons, sumL_cons] at this ⊢
+      rw [this]; ring
+
+theorem wden_lin (h : Nat → α) (a b : α) (l1 l2 : List α) (hl : l1.length = l2.length) (k : Nat) :
+    sumL (((lin a b l1 l2).zipIdx k).map fun (_, j) => h j) = sumL ((l1.zipIdx k).map fun (_, j) => h j) ∧
+    sumL ((l2.zipIdx k).map fun (_, j) => h j) = sumL ((l1.zipIdx k).map fun (_, j) => h j) := by
+  induction l1 generalizing l2 k with
+  | nil => cases l2 with
+    | nil => simp [lin]
+    | cons y s => simp at hl
+  | cons x r ih => cases l2 with
+    | nil => simp at hl
+    | cons y s =>
+      obtain ⟨h1, h2⟩ := ih s (by simpa using hl) (k + 1)
+      simp only [lin, List.zipWith_cons_cons, List.zipIdx_cons, List.map_cons, sumL_cons] at h1 h2 ⊢
+      rw [h1, h2]; exact ⟨rfl, rfl⟩
+
+/-- Alma obeys superposition: its weights depend on positions only -/
+theorem alma_linear [Transc α] (N : Nat) (sigma offset a b : α) (xs ys : List α) (h : xs.length = ys.length)
+    (hden : ∀ zs : List α, zs.length = xs.length → zs ≠ [] →
+      sumL ((lastN N zs).zipIdx.map fun (_, j) => gauss (offset * (nat N + nat 1)) (nat N / sigma)
+        (min (zs.length - (lastN N zs).length + j) (N - 1))) ≠ 0) :
+    Spec.alma N sigma offset (lin a b xs ys) = olin a b (Spec.alma N sigma offset xs) (Spec.alma N sigma offset ys) := by
+  have hl : (lin a b xs ys).length = xs.length := by simp [lin, h]
+  cases xs with
+  | nil => cases ys with
+    | nil => simp [Spec.alma, lin, olin]
+    | cons y s => simp at h
+  | cons x r => cases ys with
+    | nil => simp at h
+    | cons y s =>
+      have hne : lin a b (x :: r) (y :: s) ≠ [] := by simp [lin]
+      have hlw : (lastN N (x :: r)).length = (lastN N (y :: s)).length := by simp [lastN_length, h]
+      have hd := hden (x :: r) rfl (by simp)
+      simp only [Spec.alma, List.isEmpty_iff, hne, if_false, List.cons_ne_nil, olin, List.map_map, Function.comp_def,
+        lastN_lin N a b _ _ h, hl, Option.some.injEq] at hd ⊢
+      have hll : (lin a b (lastN N (x :: r)) (lastN N (y :: s))).length = (lastN N (x :: r)).length := by
+        simp [lin, hlw]
+      rw [hll, ← h, ← hlw]
+      set hh : Nat → α := fun j => gauss (offset * (nat N + nat 1)) (nat N / sigma)
+        (min ((x :: r).length - (lastN N (x :: r)).length + j) (N - 1)) with hhd
+      have e1 := wsum_lin hh a b _ _ hlw 0
+      obtain ⟨e2, e3⟩ := wden_lin hh a b _ _ hlw 0
+      simp only [hhd] at e1 e2 e3
+      rw [e1, e2, e3]
+      field_simp
+
 end SF.C10
